@@ -323,6 +323,20 @@ impl Prop for PRegex {
     }
 
     fn gen(&mut self, rng: &mut Rng, _idx: usize, tier: &str) -> Value {
+        if _idx % 100 == 57 {
+            // repetitions nested five deep: a backtracking engine gives up on short names (the recorded open finding;
+            // before repair d01f5a8 it brought find down)
+            let b = json!({"t": "c", "c": 66});
+            let body = json!({"t": "star", "a": {"t": "plus", "a": {"t": "cat",
+                "a": {"t": "plus", "a": {"t": "rep", "lo": 2, "hi": 4, "a": {"t": "plus", "a": {"t": "star", "a": b}}}},
+                "b": {"t": "c", "c": 97}}}});
+            let ast = json!({"t": "cat", "a": {"t": "c", "c": 114}, "b": {"t": "cat", "a": {"t": "c", "c": 47}, "b": body}});
+            let mut pat = vec![];
+            render(&ast, "posix-extended", &mut pat);
+            let names: Vec<Vec<u32>> = ["BBBBBaBBBBBBBa", "BA", "BBBBBBBBBBBa", "BBBBBBBAA", "a"].iter().map(|n| n.chars().map(|c| c as u32).collect()).collect();
+            return json!({"words": [{"w": "rt", "rt": "posix-extended"}, {"w": "RE"}], "ast": ast, "syn": "posix-extended", "pattern": pat, "icase": false,
+                          "names": names, "rootslash": 0, "both": false});
+        }
         let mut alpha: Vec<u32> = vec![97, 98, 99, 65, 66, 45, 95, 46, 43, 114];
         // one case in three over an alphabet with characters of two and three bytes: '.', a bracket expression and a
         // repetition are about characters, not bytes (no upper-case partners: -iregex stays about ASCII letters here)
